@@ -87,11 +87,12 @@ impl TryFrom<BdlBlock> for WallCons {
             .zip(thickness.iter())
             .map(|(name, thickness)| {
                 if name.starts_with("Cámara de aire ") {
-                    match &name[name.len() - 5..] {
-                        " 1 cm" => 0.01,
-                        " 2 cm" => 0.02,
-                        " 5 cm" => 0.05,
-                        "10 cm" => 0.10,
+                    // El final del nombre puede no caer en un límite de carácter (nombres no ASCII)
+                    match name.get(name.len() - 5..) {
+                        Some(" 1 cm") => 0.01,
+                        Some(" 2 cm") => 0.02,
+                        Some(" 5 cm") => 0.05,
+                        Some("10 cm") => 0.10,
                         _ => *thickness,
                     }
                 } else {
